@@ -109,7 +109,7 @@ def dynamic(rep, scratch, tier, seed):
              [("DOPEN", "h1", "fa", "-"), ("DOPEN", "h2", "fa", "-"), ("DCLOSE", "h1"), ("DQUERY", "h2"), ("DCLOSE", "h2"), ("DOPEN", "h3", "fa", "preload=false"), ("DQUERY", "h3"), ("DCLOSE", "h3")]]
     for ops in fixed:
         hist.append((ops, []))
-    for _ in range(60 if tier == "quick" else 600):
+    for _ in range(60 if tier == "quick" else 4000):
         hist.append(gen_history(rng, 14))
     results = []
 
